@@ -426,7 +426,9 @@ def _mk_rev_plugin(routes, handled):
     def before_routing(self, request):
         handled.append(None if request.path is None else bytes(request.path))
         return request
-    return type('VerifReverse', (ReverseProxyBasePlugin,), {'routes': routes_, 'before_routing': before_routing})
+    # the name identifies the route table (harness/simexec caches flags by the repr of their options)
+    name = 'VerifReverse_%08x' % (zlib.crc32(json.dumps(routes).encode()) & 0xffffffff)
+    return type(name, (ReverseProxyBasePlugin,), {'routes': routes_, 'before_routing': before_routing})
 
 
 def _rev_up(h):
@@ -773,7 +775,8 @@ def oracle(case):
 
 
 FAILURES = {
-    'D13a': ('fwd-missing-response', 'fwd-torn-down', 'web-missing-response', 'web-torn-down'),
+    'D13a': ('fwd-missing-response', 'fwd-torn-down', 'fwd-wrong-response', 'web-missing-response', 'web-torn-down',
+             'web-wrong-response'),
     'D13b': ('fwd-wrong-origin',),
     'D13c': ('web-wrong-route',),
     'D12': ('rev-connection-closed', 'rev-stalled'),
